@@ -31,6 +31,7 @@ def make_single_file(dest, args, repo):
 LINK_PROBE_A = r"""
 %(inc)s
 #include <cstdio>
+#include <iomanip>
 #include <limits>
 #include <sstream>
 #include <string>
@@ -49,7 +50,10 @@ int main() {
       << odr(std::numeric_limits<QuantityI32<Meters>>::digits) << '|' << odr(std::numeric_limits<QuantityD<Feet>>::max_exponent) << '|'
       << odr(std::numeric_limits<QuantityD<Feet>>::is_signed) << '|' << odr(detail::FirstPrimes::values)[3 + i] << '|'
       << (meters(1) + feet(1)) << '|' << (celsius_pt(20) - kelvins_pt(290)) << '|' << meters_pt(3.5) << '|' << SPEED_OF_LIGHT.as<int>(meters / second) << '|'
-      << (int8_t{65} * meters(int8_t{1})) << '|' << as_quantity(std::chrono::milliseconds(5));
+      << (int8_t{65} * meters(int8_t{1})) << '|' << as_quantity(std::chrono::milliseconds(5)) << '|';
+    // pending stream state (field width, fill, adjustment, float format): what the pieces of a quantity / point consume must not depend on the compiler
+    o << std::setw(12) << meters_pt(3.5) << '|' << std::setw(10) << meters(2) << '|' << std::left << std::setw(10) << std::setfill('.') << celsius_pt(-40.5)
+      << '|' << std::right << std::setw(9) << std::setfill('*') << feet(7) << '|' << std::fixed << std::setprecision(2) << std::setw(14) << kelvins_pt(2.5);
     char buf[256];
     int n = probe_b(buf, 256);
     std::printf("%%s|%%.*s\n", o.str().c_str(), n, buf);
